@@ -1,3 +1,4 @@
+#!/bin/bash
 cd /verif
 run() { d=$(mktemp -d /tmp/ahbm_XXXX); cp -r /repo/src $d/; python3 - "$d" "$2" "$3" "$4" <<'PY'
 import sys
